@@ -9,6 +9,7 @@ import z3
 from .externals import NUMPY, TRUSTED_NUMPY
 from .smt import prove, satisfiable
 from .symex import Engine, View, zb
+import traceback
 from .symval import ContractError, Unsupported
 
 DROPS = 'docstrings, type hints, logger.*/tqdm.write/print calls (pure), elapsed() timing'
@@ -30,7 +31,10 @@ def verify(pack, contract, externals=None, replay=None, witnesses=None, timeout_
     try:
         ex = Engine(contract, ext, repo)
         obls = ex.run()
-    except Unsupported as e:
+    except Exception as e:      # noqa: Unsupported, or the code reads/calls something the contract does not describe
+        if not isinstance(e, (Unsupported, ContractError)):
+            traceback.print_exc()
+            e = '%s: %s (symbolic execution failed; not a verdict)' % (type(e).__name__, e)
         name = contract.oname + '/in-subset'
         pack.add({'name': name, 'verdict': 'unknown', 'backend': 'symex', 'time_s': time.time() - t0, 'model': None,
                   'smt2': None, 'meta': {}, 'note': 'unsupported: %s' % e})
@@ -103,9 +107,35 @@ def verify(pack, contract, externals=None, replay=None, witnesses=None, timeout_
                 payload['solver_output'] = 'sat: hyps /\\ not goal has the model above'
                 pack.violation(bname, payload, no_input=True)
         else:
+            if known and witnesses:
+                # undecided as a whole, but listed as failing inside a witness: decide it outside the witness
+                wconds = [(k, zb((witnesses or {})[k.get('id')](meta.get('_old'), meta.get('_new')))) for k in known
+                          if (witnesses or {}).get(k.get('id')) is not None]
+                if wconds:
+                    outside = prove(name + '/outside-witness', hyps + [z3.Not(w) for _, w in wconds], goal, timeout_ms=timeout_ms)
+                    if outside.verdict == 'proved':
+                        d.setdefault('meta', {})['known_finding'] = True
+                        d['note'] = 'proved outside the listed witness; inside it the finding is replayed natively'
+                        pack.add(d)
+                        for k, w in wconds:
+                            pack.known_finding(k)
+                        continue
             pack.add(d)
             if bname not in reported:
                 reported.add(bname)
-                pack.undecided_obl(bname, d.get('note', ''))
+                conf = None
+                if replay is not None:
+                    # the solver left the obligation open: a native run of the real function over the replay
+                    # harness's own inputs may still exhibit a failing input (only a confirmed one is reported)
+                    try:
+                        conf = replay(bname, {}, meta)
+                    except Exception as e:
+                        conf = {'confirmed': False, 'error': repr(e), 'trace': traceback.format_exc()[-600:]}
+                if conf and conf.get('confirmed'):
+                    pack.violation(bname, {'solver': d['backend'], 'solver_output': 'unknown (%s)' % d.get('note', ''),
+                                           'function': contract.qualname, 'file': contract.file, 'source_sha256': ex.sha,
+                                           'obligation_kind': name.split('/')[-1], 'native': conf})
+                else:
+                    pack.undecided_obl(bname, d.get('note', ''))
     pack.add_function(contract.qualname, contract.file, obligations=len(obls), paths=ex.npaths, sha=ex.sha, dropped=DROPS)
     return ex
